@@ -38,10 +38,19 @@ type wrec struct {
 	writes []string
 	failAt int // fail the k-th write and all later ones (0 = never)
 	n      int
+	// gate, if set, makes the next write wait until the harness sends its outcome (nil = succeed):
+	// this holds the writing goroutine inside the correlator while other events are delivered
+	gate chan error
 }
 
 func (w *wrec) Write(p []byte) (int, error) {
 	w.n++
+	if g := w.gate; g != nil {
+		w.gate = nil
+		if err := <-g; err != nil {
+			return 0, err
+		}
+	}
 	if w.failAt > 0 && w.n >= w.failAt {
 		return 0, errInjected
 	}
